@@ -147,6 +147,18 @@ func (d ProdSliceData) Process() (artifact.Artifact, error) {
 	return sliceArtifact{text: d.In.Value(), idx: d.Idx, pts: d.Pts.Value()}, nil
 }
 
+// FileLeafData turns a File parameter (raw bytes) into a readable token.
+type FileLeafData struct {
+	P   nodes.NodeOutput[[]byte]
+	Idx int
+}
+
+func (d FileLeafData) Process() (string, error) {
+	return fmt.Sprintf("p%d=f:%s", d.Idx, d.P.Value()), nil
+}
+
+func fileBytes(serial int) []byte { return []byte(fmt.Sprintf("%08d", serial)) }
+
 type textArtifact struct{ data string }
 
 func (t textArtifact) Write(w io.Writer) error { _, err := w.Write([]byte(t.data)); return err }
@@ -180,8 +192,11 @@ type graphSpec struct {
 	// RealProducer: use the library's basics.TextNode instead of the
 	// harness producer for this producer
 	RealProducer []bool
-	// ParamKind: 0 int parameter, 1 vector3-array parameter
+	// ParamKind: 0 int parameter, 1 vector3-array parameter, 2 File parameter
 	ParamKind []int
+	// BinProducer[k] >= 0: producer k is the library's basics.BinaryNode fed
+	// directly by that File parameter
+	BinProducer []int
 	// SliceProducer[k] >= 0: producer k is a ProdSliceData that also keeps
 	// the array of that parameter
 	SliceProducer []int
@@ -190,6 +205,9 @@ type graphSpec struct {
 func (g graphSpec) leaf(p int, st []int) string {
 	if p < len(g.ParamKind) && g.ParamKind[p] == 1 {
 		return renderArr(p, pattern(st[p]))
+	}
+	if p < len(g.ParamKind) && g.ParamKind[p] == 2 {
+		return fmt.Sprintf("p%d=f:%s", p, fileBytes(st[p]))
 	}
 	return fmt.Sprintf("p%d=%d", p, st[p])
 }
@@ -204,6 +222,9 @@ func (g graphSpec) evalRef(r int, st []int) string {
 // artifact is what Artifact(producer) must yield in state st: the
 // fingerprint, or "PANIC" when a parameter in its cone holds a poisoned value.
 func (g graphSpec) artifact(prod int, st []int) string {
+	if bp := g.BinProducer[prod]; bp >= 0 {
+		return string(fileBytes(st[bp]))
+	}
 	cone := map[int]bool{}
 	g.paramsOf(g.Producers[prod], cone)
 	for p := range cone {
@@ -237,7 +258,7 @@ func genGraph(c choice.Chooser) graphSpec {
 	g := graphSpec{Params: 2 + c.Intn("g:params", 3)}
 	for p := 0; p < g.Params; p++ {
 		g.Init = append(g.Init, 1000+p)
-		g.ParamKind = append(g.ParamKind, choice.Pick(c, "g:paramkind", []int{3, 1}))
+		g.ParamKind = append(g.ParamKind, choice.Pick(c, "g:paramkind", []int{4, 2, 1}))
 	}
 	nn := 2 + c.Intn("g:nodes", 4)
 	pickRef := func(i int) int {
@@ -276,6 +297,15 @@ func genGraph(c choice.Chooser) graphSpec {
 			}
 		}
 		g.SliceProducer = append(g.SliceProducer, sp)
+		bp := -1
+		if k > 0 && choice.Bool(c, "g:binproducer") {
+			for p := 0; p < g.Params; p++ {
+				if g.ParamKind[p] == 2 {
+					bp = p
+				}
+			}
+		}
+		g.BinProducer = append(g.BinProducer, bp)
 	}
 	return g
 }
@@ -290,12 +320,17 @@ func build(g graphSpec) built {
 	var b built
 	params := make([]nodes.Node, g.Params)
 	arrParams := make([]*parameter.Value[[]vector3.Float64], g.Params)
+	fileParams := make([]*parameter.File, g.Params)
 	leaves := make([]nodes.NodeOutput[string], g.Params)
 	for p := range params {
 		if g.ParamKind[p] == 1 {
 			ap := &parameter.Value[[]vector3.Float64]{Name: fmt.Sprintf("P%d", p), DefaultValue: pattern(g.Init[p])}
 			params[p], arrParams[p] = ap, ap
 			leaves[p] = (&nodes.Struct[string, ArrLeafData]{Data: ArrLeafData{P: ap.Out(), Idx: p}}).Out()
+		} else if g.ParamKind[p] == 2 {
+			fp := &parameter.File{Name: fmt.Sprintf("P%d", p), DefaultValue: fileBytes(g.Init[p])}
+			params[p], fileParams[p] = fp, fp
+			leaves[p] = (&nodes.Struct[string, FileLeafData]{Data: FileLeafData{P: fp.Out(), Idx: p}}).Out()
 		} else {
 			ip := &parameter.Value[int]{Name: fmt.Sprintf("P%d", p), DefaultValue: g.Init[p]}
 			params[p] = ip
@@ -322,7 +357,10 @@ func build(g graphSpec) built {
 	b.inst = graph.New(&refutil.TypeFactory{})
 	for k, ni := range g.Producers {
 		name := fmt.Sprintf("out%d.txt", k)
-		if k < len(g.RealProducer) && g.RealProducer[k] {
+		if bp := g.BinProducer[k]; bp >= 0 {
+			// the library's binary producer on the File parameter itself
+			b.inst.AddProducer(name, basics.NewBinaryNode(fileParams[bp].Out()))
+		} else if k < len(g.RealProducer) && g.RealProducer[k] {
 			// the library's own text producer and artifact type: what it
 			// hands out must stay valid after the lock is released
 			b.inst.AddProducer(name, basics.NewTextNode(ns[ni].Out()))
@@ -405,6 +443,9 @@ func model(g *graphSpec) porcupine.Model {
 					want, _ := json.Marshal(pattern(st[o.Param]))
 					return r.Val == string(want), st
 				}
+				if g.ParamKind[o.Param] == 2 {
+					return r.Val == string(fileBytes(st[o.Param])), st
+				}
 				return r.Val == strconv.Itoa(st[o.Param]), st
 			default:
 				return r.Val == g.artifact(o.Prod, st[:]), st
@@ -439,6 +480,10 @@ func (Scenario) Run(c choice.Chooser, opt sim.Options) sim.Result {
 	// only parameters some producer depends on are part of the instance
 	reach := map[int]bool{}
 	for k, ni := range g.Producers {
+		if bp := g.BinProducer[k]; bp >= 0 {
+			reach[bp] = true
+			continue
+		}
 		g.paramsOf(ni, reach)
 		if sp := g.SliceProducer[k]; sp >= 0 {
 			reach[sp] = true
@@ -467,6 +512,11 @@ func (Scenario) Run(c choice.Chooser, opt sim.Options) sim.Result {
 				next++
 			case 1:
 				o = op{Kind: opBadUpdate, Param: usable[c.Intn("op:param", len(usable))]}
+				if g.ParamKind[o.Param] == 2 {
+					// a File parameter accepts any bytes: nothing is malformed
+					o = op{Kind: opUpdate, Param: o.Param, Value: next}
+					next++
+				}
 			case 2:
 				o = op{Kind: opRead, Param: usable[c.Intn("op:param", len(usable))]}
 			default:
@@ -491,6 +541,9 @@ func (Scenario) Run(c choice.Chooser, opt sim.Options) sim.Result {
 					msg := []byte(strconv.Itoa(o.Value))
 					if g.ParamKind[o.Param] == 1 {
 						msg, _ = json.Marshal(pattern(o.Value))
+					}
+					if g.ParamKind[o.Param] == 2 {
+						msg = fileBytes(o.Value) // a fresh slice: File keeps the message it is given
 					}
 					_, err := b.inst.UpdateParameter(b.paramIDs[o.Param], msg)
 					r.Err = err != nil
